@@ -115,8 +115,9 @@ type hworld struct {
 	descs   []*onet.TreeMarshal // see mkWorld
 	bogus   *network.ServerIdentity
 	nmark   int
-	fly     []*flying // responses held at overlay.treeArriveTested: they passed the test, have not stored yet
-	stuck   string    // the operation did not complete within the (generous) deadlines: an observation
+	usedTM  map[*onet.TreeMarshal]bool // descriptions that were pending when a roster message with their roster id was handled
+	fly     []*flying                  // responses held at overlay.treeArriveTested: they passed the test, have not stored yet
+	stuck   string                     // the operation did not complete within the (generous) deadlines: an observation
 	note    string
 }
 
@@ -125,7 +126,7 @@ func mkWorld(in input) *hworld {
 	lt := onet.NewLocalTest(s)
 	lt.Check = onet.CheckNone
 	servers := lt.GenServers(2)
-	w := &hworld{lt: lt, x: servers[0], p: servers[1], ov: servers[0].VerifOverlay(), d: newDumper(), sched: lib.NewSched(), rec: &recorder{}}
+	w := &hworld{lt: lt, x: servers[0], p: servers[1], ov: servers[0].VerifOverlay(), d: newDumper(), sched: lib.NewSched(), rec: &recorder{}, usedTM: map[*onet.TreeMarshal]bool{}}
 	svc := in.World%2 == 1
 	srv := func(i int) *network.ServerIdentity { return poolServer(s, 500+i, svc) }
 	r0 := onet.NewRoster([]*network.ServerIdentity{srv(0), srv(1), srv(2), srv(3)})
@@ -476,6 +477,11 @@ func (w *hworld) exec(o hop) (outcome string, nilFirst bool) {
 			Msg: &onet.RequestRoster{RosterID: w.rosters[o.Ros].ID}})
 		nilFirst = outcome == "Crashed"
 	case "pros":
+		if !w.rosters[o.Ros].ID.IsNil() {
+			for _, tm := range w.ov.VerifC06PendingTreeMarshals()[w.rosters[o.Ros].ID] {
+				w.usedTM[tm] = true
+			}
+		}
 		outcome = w.process(&network.Envelope{ServerIdentity: from, MsgType: onet.SendRosterMsgID, Msg: w.rosters[o.Ros]})
 	default:
 		panic("unknown op " + o.Op) // an error of the generator, not of the implementation
@@ -517,7 +523,13 @@ func (w *hworld) tagsFor(o hop) []tagCand {
 		for _, tm := range w.ov.VerifC06PendingTreeMarshals()[w.rosters[o.Ros].ID] {
 			switch w.ov.VerifTreeState(tm.TreeID) {
 			case 0:
-				cand("roster-for-absent", tm.TreeID, false)
+				if w.usedTM[tm] {
+					// this very description was already waiting when an earlier roster message with
+					// its roster id was handled: it should have been consumed then
+					cand("roster-replayed", tm.TreeID, false)
+				} else {
+					cand("roster-for-absent", tm.TreeID, false)
+				}
 			case 2:
 				cand("roster-for-present", tm.TreeID, false)
 			}
